@@ -78,6 +78,17 @@ type api struct {
 	cv          *curveConsts
 }
 
+// an Fp2 element c0 + c1 u travels through the type-erased API as the integer c0 * 2^384 + c1
+// (the bytes c0 || c1 of BaseFieldElementG2)
+func split384(v *big.Int) (*big.Int, *big.Int) {
+	m := new(big.Int).Lsh(big.NewInt(1), 384)
+	return new(big.Int).Rsh(v, 384), new(big.Int).Mod(v, m)
+}
+
+func join384(c0, c1 *big.Int) *big.Int {
+	return new(big.Int).Or(new(big.Int).Lsh(c0, 384), c1)
+}
+
 func beInt(b []byte) *big.Int { return new(big.Int).SetBytes(b) }
 
 func fixed(x *big.Int, n int) []byte {
@@ -188,6 +199,11 @@ func (a *api) canon(p any) string {
 	if inf {
 		return "inf"
 	}
+	if a.kind == '2' && !ex && !ey {
+		x0, x1 := split384(x)
+		y0, y1 := split384(y)
+		return vh.ZHex(x0) + "," + vh.ZHex(x1) + "," + vh.ZHex(y0) + "," + vh.ZHex(y1)
+	}
 	xs, ys := "ERR", "ERR"
 	if !ex {
 		xs = vh.ZHex(x)
@@ -230,8 +246,6 @@ func apis() []*api {
 	g2 := bls12381.NewG2()
 	a2 := mkAPI[*bls12381.PointG2, *bls12381.BaseFieldElementG2]("blsg2", '2', g2, bls12381.NewG2BaseField(), g2.Generator(),
 		func() *bls12381.PointG2 { return new(bls12381.PointG2) }, nil, constsBLSG2, true)
-	a2.fromAffine = nil
-	a2.modelled = false
 	out = append(out, a2)
 	return out
 }
